@@ -156,6 +156,9 @@ func c13Run(c *Ctx) {
 	if z := c.L("style:z"); z.Chance(1, 5) {
 		style.RootEnd = 1 + z.Intn(16)
 	}
+	if z := c.L("style:z"); z.Chance(1, 4) {
+		style.Unprefixed = 1 + z.Intn(15)
+	}
 	if y := c.L("style:y"); y.Chance(1, 4) {
 		style.AttrPad = []int{40, 130, 260, 600, 1300, 1530}[y.Intn(6)]
 	}
